@@ -458,6 +458,8 @@ class SupvisorsStateModes:
         """
         masters: NameSet = self.get_master_identifiers()
         masters.discard('')
+        # NOTE: a Master that is not seen as RUNNING cannot be accepted (it may be a stale declaration)
+        masters = {identifier for identifier in masters if self.is_running(identifier)}
         self.logger.debug(f'SupvisorsStateModes.accept_master: masters={masters}')
         if masters:
             # arbitrary choice: pick up the first one
